@@ -152,6 +152,45 @@ pub fn random_setup(rng: &mut Rng, max_extra: usize) -> Pos {
     }
 }
 
+/// A pawn one step from promotion with both kings nearby (queen promotions that stalemate,
+/// under-promotions that win): the endings where "the queen is always best" is false.
+pub fn promotion_ending(rng: &mut Rng) -> Pos {
+    loop {
+        let mut pos = Pos::empty();
+        let white = rng.chance(1, 2);
+        let f = rng.below(8) as i8;
+        let (pr, promo_r) = if white { (6, 7) } else { (1, 0) };
+        let pawn = mk_sq(f, pr).unwrap();
+        let promo = mk_sq(f, promo_r).unwrap();
+        let near = |rng: &mut Rng, c: Sq, d: i8| -> Option<Sq> {
+            mk_sq(file_of(c) + rng.range(0, 2 * d as usize) as i8 - d, rank_of(c) + rng.range(0, 2 * d as usize) as i8 - d)
+        };
+        let (own_side, other_side) = if white { (Side::White, Side::Black) } else { (Side::Black, Side::White) };
+        let ok = match (near(rng, pawn, 2), near(rng, promo, 2)) {
+            (Some(k1), Some(k2)) if k1 != pawn && k2 != pawn && k1 != k2 && k2 != promo => {
+                pos.sq[pawn as usize] = Some((P::Pawn, own_side));
+                pos.sq[k1 as usize] = Some((P::King, own_side));
+                pos.sq[k2 as usize] = Some((P::King, other_side));
+                true
+            }
+            _ => false,
+        };
+        if !ok {
+            continue;
+        }
+        if rng.chance(1, 3) {
+            let s = rng.below(64) as Sq;
+            if pos.sq[s as usize].is_none() {
+                pos.sq[s as usize] = Some((*rng.pick(&[P::Knight, P::Bishop, P::Rook]), if rng.chance(1, 2) { Side::White } else { Side::Black }));
+            }
+        }
+        pos.stm = if rng.chance(1, 2) { Side::White } else { Side::Black };
+        if pos.is_consistent() && pos.has_legal_move() {
+            return pos;
+        }
+    }
+}
+
 #[derive(Clone, Copy, PartialEq, Eq, Debug)]
 pub enum StartKind {
     /// checkmated / stalemated / mate-in-one / single-reply positions
